@@ -63,7 +63,8 @@ func (t *tr) evalModItem(item ast.Expr, env *senv, pre map[string]string) (out [
 	case *ast.CallExpr:
 		if id, ok := x.Fun.(*ast.Ident); ok {
 			if g, ok := t.eng.specs.Ghosts[id.Name]; ok {
-				if len(x.Args) != len(g.Keys) {
+				// fewer keys than the ghost has: every entry under that key prefix (e.g. wpre(t): wpre(t, n) for all n)
+				if len(x.Args) > len(g.Keys) || len(x.Args) == 0 {
 					return nil, fmt.Errorf("ghost %s expects %d keys", id.Name, len(g.Keys))
 				}
 				var ks []string
@@ -119,8 +120,16 @@ func (t *tr) evalModItem(item ast.Expr, env *senv, pre map[string]string) (out [
 			return nil, fmt.Errorf("modifies *%s: not a pointer", types.ExprString(x.X))
 		}
 		term := c.rv1(p)
+		lv := leaves(pt.Elem())
+		if len(lv) <= 4 {
+			// exactly the cells of *p (p may point into the middle of a larger object, e.g. &item.length)
+			for i, ls := range lv {
+				out = append(out, modTarget{heap: "H_" + ls, loc: locPlus(term, i), kind: 2})
+			}
+			return
+		}
 		a, b, _ := locParts(term)
-		for _, ls := range uniq(leaves(pt.Elem())) {
+		for _, ls := range uniq(lv) {
 			out = append(out, modTarget{heap: "H_" + ls, obj: [2]string{a, b}, kind: 1})
 		}
 		return
